@@ -33,9 +33,14 @@ Nodes == <<
   [k |-> "num", n |-> 2],                                    \* 8
   [k |-> "arr", kids |-> <<10>>],                            \* 9
   [k |-> "num", n |-> 3],                                    \* 10
-  [k |-> "str", s |-> "u"] >>                                \* 11
-DocRoot == <<1, 6>>
-DocText == <<"{\"a\":[1,\"s\"],\"b\":\"t\"}", "[{\"k\":2},[3],\"u\"]">>
+  [k |-> "str", s |-> "u"],                                  \* 11
+  [k |-> "num", n |-> 7],                                    \* 12 root of document 3 (a scalar: nothing keeps the arena)
+  [k |-> "arr", kids |-> <<>>] >>                            \* 13 root of document 4 (empty container: a static node)
+DocRoot == <<1, 6, 12, 13>>
+DocText == <<"{\"a\":[1,\"s\"],\"b\":\"t\"}", "[{\"k\":2},[3],\"u\"]", " 7 ", "[ ]">>
+\* documents that are rejected only after their arena has been built (deferred UTF-8 error, input ending in a string)
+\* ('?' stands for the byte 0xFF)
+BadText == <<"[\"a\",\"?\"]", "[1,2] x", "\"abc">>
 Keys == {"a", "b", "k", "z"}
 
 \* ---- representation-level values ------------------------------------------------------
@@ -295,12 +300,20 @@ Init == /\ slot = [s \in Slots |-> None] /\ model = [s \in Slots |-> PNone]
 \* from_str::<Value>(DocText[d])
 Parse(s, d) ==
   /\ slot[s] = None
-  /\ LET a == FreshA(Heap) IN
-     /\ arena' = [arena EXCEPT ![a] = [rc |-> 1, alive |-> TRUE]]
-     /\ slot' = [slot EXCEPT ![s] = Root(a, DocRoot[d])]
+  /\ LET a == FreshA(Heap)  n == DocRoot[d]
+         static == Nodes[n].k = "num" \/ (Nodes[n].k = "arr" /\ Nodes[n].kids = <<>>)
+     IN \* a scalar or empty-container root is copied out as a static node: the arena made for the parse dies with it
+        IF static THEN /\ UNCHANGED arena
+                       /\ slot' = [slot EXCEPT ![s] = IF Nodes[n].k = "num" THEN Num(Nodes[n].n) ELSE EArr]
+        ELSE /\ arena' = [arena EXCEPT ![a] = [rc |-> 1, alive |-> TRUE]]
+             /\ slot' = [slot EXCEPT ![s] = Root(a, n)]
   /\ model' = [model EXCEPT ![s] = PlainNode(DocRoot[d])]
   /\ UNCHANGED <<vec, map>>
   /\ Step([op |-> "parse", s |-> s, d |-> d, text |-> DocText[d]])
+\* from_slice::<Value>(text) of a document that is rejected: nothing is returned, nothing stays alive
+ParseRejected(b) ==
+  /\ UNCHANGED <<slot, model, arena, vec, map>>
+  /\ Step([op |-> "parse_bad", text |-> BadText[b]])
 \* a value built without parsing: json!([]) / Value::new_array() / object / scalar
 New(s, what) ==
   /\ slot[s] = None
@@ -389,6 +402,7 @@ OutSlot(s, src) == LET free == {q \in Slots : q # s /\ q # src /\ slot[q] = None
 Consuming == {"push", "insert", "set", "resize"}
 Next ==
   \/ \E s \in Slots, d \in 1..Len(DocRoot) : Parse(s, d)
+  \/ \E b \in 1..Len(BadText) : ParseRejected(b)
   \/ \E s \in Slots, w \in {"arr", "obj", "num"} : New(s, w)
   \/ \E s \in Slots, w \in {"obj1", "arr2"} : Build(s, w)
   \/ \E s, src \in Slots, kind \in {"arr", "obj"} : \E p \in (IF slot[s] = None THEN {} ELSE ContainerPaths(s)) : AppendFrom(s, p, kind, src)
